@@ -95,6 +95,9 @@ def make_frame(rng, saturated=False):
     weights = rng.random() < 0.4
     if weights:
         df['wt'] = rs.randint(1, 4, n)
+    elif rng.random() < 0.5:
+        # a bystander column the analysis never names, called like a scratch column of the library: it is data, not a weight
+        df['_w_'] = rs.randint(1, 9, n)
     missing = rng.choice([None, None, 'mcar', 'model', 'model_unstab'])
     if missing:
         m = rs.binomial(1, 1 / (1 + np.exp(-(-1.5 + 0.6 * df['A'] + 0.3 * df[covs[0]]))))
